@@ -281,7 +281,7 @@ class PureScheduler:                                    # pylint: disable=r0902
                           .format(job, container_label, before - after))
             # recursively scan nested schedulers
             if isinstance(job, PureScheduler):
-                changes = job.sanitize(verbose) or changes
+                changes = (not job.sanitize(verbose)) or changes
         return not changes
 
     ####################
